@@ -269,6 +269,12 @@ pub struct Gc {
     /// only refer to each other through some reference or channel allocated in generation 0 (and
     /// if they do interact with eachother this means the values are cloned into generation 0).
     generation: Generation,
+    #[cfg(feature = "verif_hooks")]
+    #[cfg_attr(feature = "serde_derive", serde(skip))]
+    pub(crate) verif_id: u64,
+    #[cfg(feature = "verif_hooks")]
+    #[cfg_attr(feature = "serde_derive", serde(skip))]
+    pub(crate) verif_visitor: Option<Box<crate::verif::Visitor>>,
 }
 
 impl Drop for Gc {
@@ -348,6 +354,8 @@ struct TypeInfo {
     tag: Option<InternedStr>,
     fields: FnvMap<InternedStr, VmIndex>,
     fields_key: Arc<[InternedStr]>,
+    #[cfg(feature = "verif_hooks")]
+    heap_id: u64,
 }
 
 #[derive(Debug)]
@@ -1057,6 +1065,8 @@ where
         if !gc.mark(self) {
             // Continue traversing if this ptr was not already marked
             (**self).trace(gc);
+            #[cfg(feature = "verif_hooks")]
+            gc.verif_leave();
         }
     }
 }
@@ -1073,6 +1083,10 @@ impl Gc {
             record_infos: FnvMap::default(),
             tag_infos: FnvMap::default(),
             generation: generation,
+            #[cfg(feature = "verif_hooks")]
+            verif_id: crate::verif::next_heap_id(),
+            #[cfg(feature = "verif_hooks")]
+            verif_visitor: None,
         }
     }
 
@@ -1158,6 +1172,8 @@ impl Gc {
         D: DataDef,
         D::Value: Sized + Any,
     {
+        #[cfg(feature = "verif_hooks")]
+        let _verif_scope = crate::verif::ignore_limit_scope();
         GcRef::from(self.alloc_ignore_limit_(def.size(), def))
     }
 
@@ -1197,6 +1213,8 @@ impl Gc {
                                     .collect()
                             },
                             fields_key: owned_fields,
+                            #[cfg(feature = "verif_hooks")]
+                            heap_id: self.verif_id,
                         }))
                 }
             },
@@ -1209,6 +1227,8 @@ impl Gc {
                         tag: Some(unsafe { tag.clone_unrooted() }),
                         fields: FnvMap::default(),
                         fields_key: Arc::from(Vec::new()),
+                        #[cfg(feature = "verif_hooks")]
+                        heap_id: self.verif_id,
                     })),
                 },
                 None => match self.type_infos.entry(type_id) {
@@ -1219,6 +1239,8 @@ impl Gc {
                         tag: None,
                         fields: FnvMap::default(),
                         fields_key: Arc::from(Vec::new()),
+                        #[cfg(feature = "verif_hooks")]
+                        heap_id: self.verif_id,
                     })),
                 },
             },
@@ -1246,6 +1268,8 @@ impl Gc {
         let mut ptr = AllocPtr::new::<D::Value>(type_info, size);
         ptr.next = self.values.take();
         self.allocated_memory += ptr.size();
+        #[cfg(feature = "verif_hooks")]
+        crate::verif::on_alloc(self.allocated_memory, self.memory_limit);
         unsafe {
             let p: *mut D::Value = D::Value::make_ptr(&def, ptr.value());
             let ret: *const D::Value = &*def.initialize(WriteOnly::new(p));
@@ -1264,6 +1288,11 @@ impl Gc {
         R: Trace + CollectScope,
     {
         unsafe {
+            #[cfg(feature = "verif_hooks")]
+            if crate::verif::stress_due() {
+                self.collect(roots);
+                return true;
+            }
             if self.allocated_memory >= self.collect_limit {
                 self.collect(roots);
                 true
@@ -1292,6 +1321,10 @@ impl Gc {
     /// Marks the GcPtr
     /// Returns true if the pointer was already marked
     pub fn mark<T: ?Sized>(&mut self, value: &GcPtr<T>) -> bool {
+        #[cfg(feature = "verif_hooks")]
+        if self.verif_visitor.is_some() {
+            return self.verif_mark(value);
+        }
         let header = value.header();
         // We only need to mark and trace values from this garbage collectors generation
         if header.generation().is_parent_of(self.generation()) || header.marked.get() {
@@ -1360,9 +1393,52 @@ impl Gc {
     fn free(&mut self, header: Option<AllocPtr>) {
         if let Some(ref ptr) = header {
             self.allocated_memory -= ptr.size();
+            #[cfg(feature = "verif_hooks")]
+            crate::verif::on_free();
         }
         debug!("FREE: {:?}", header);
         drop(header);
+    }
+}
+
+#[cfg(feature = "verif_hooks")]
+impl Gc {
+    pub fn verif_id(&self) -> u64 {
+        self.verif_id
+    }
+
+    /// Calls `f(value address, value size)` for every object owned by this heap
+    pub fn verif_for_each_object(&self, mut f: impl FnMut(usize, usize)) {
+        let mut current = self.values.as_ref();
+        while let Some(ptr) = current {
+            let header: &GcHeader = &**ptr;
+            let addr = header as *const GcHeader as usize + GcHeader::value_offset();
+            f(addr, header.value_size);
+            current = header.next.as_ref();
+        }
+    }
+
+    fn verif_mark<T: ?Sized>(&mut self, value: &GcPtr<T>) -> bool {
+        let addr = value.0.as_ptr() as *const () as usize;
+        let visitor = self.verif_visitor.as_mut().unwrap();
+        if !visitor.live.contains_key(&addr) {
+            // Never dereference something that is not in a live list
+            visitor.edge(addr, None, std::any::type_name::<T>());
+            return true;
+        }
+        let heap = unsafe { (*value.header().type_info).heap_id };
+        visitor.edge(addr, Some(heap), std::any::type_name::<T>());
+        if !visitor.visited.insert(addr) {
+            return true;
+        }
+        visitor.stack.push((addr, heap));
+        false
+    }
+
+    pub(crate) fn verif_leave(&mut self) {
+        if let Some(visitor) = self.verif_visitor.as_mut() {
+            visitor.stack.pop();
+        }
     }
 }
 
